@@ -14,7 +14,7 @@ META = {
                   "decompress(compress x) = x. Threshold/chunk/header/flusher and the loop skeletons are regenerated from channel.py/stream.py/consts.py; the "
                   "extracted model is compared with the real classes over scripted fake sockets and pipes.",
     "level_note": "Trusted: Coq kernel, pygen, extraction+driver, harness fakes (FakeSock, fake os.read/os.write); zlib round-trip is an explicit hypothesis; kernel "
-                  "buffering/select/poll and Win32 pipes are outside the model; a write timeout is fatal by design (property only promises tolerance while reading).",
+                  "buffering/select/poll and Win32 pipes are outside the model; a write timeout is fatal by design (property only promises tolerance while reading); tolerance of would-block on PIPES is the generated fact PipeStream_read_tolerates_wouldblock (F45: fixed).",
     "technique": "Coq proof by induction over packets and transport-oracle events; regenerated parameters; differential correspondence over fake transports",
     "gen": ["consts", "channel", "stream"],
     "shapes": ["channel.*", "stream.*"],
@@ -94,6 +94,19 @@ class FakeOS:
             raise BlockingIOError(errno.EAGAIN, "would block")
 
     def write(self, fd, data): return self.sock.send(bytes(data))
+
+
+_PT = []
+
+
+def PIPE_TOLERANT():
+    """generated fact: does PipeStream.read of the tree under test retry on EAGAIN/EWOULDBLOCK?"""
+    if not _PT:
+        try:
+            _PT.append("PipeStream_read_tolerates_wouldblock : bool := true" in open(C.COQ + "/gen/Gen_stream.v").read())
+        except OSError:
+            _PT.append(True)
+    return _PT[0]
 
 
 def make_stream(kind, fs):
@@ -239,8 +252,9 @@ def run_cases(ctx, model, cases):
             i, v = cs["corrupt"]; i %= len(w); w = w[:i] + bytes([v]) + w[i + 1:]
         got, end, rclosed, rspy = impl_recvall(kind if not cs.get("rkind") else cs["rkind"], [list(e) for e in cs["revs"]], w, cmp_r=cs.get("cmp_r", True))
         rk = cs.get("rkind") or kind
-        tolerant = rk == "sock"
-        fault_r = any(e[0] in (3, 4) for e in cs["revs"]) or (not tolerant and any(e[0] in (1, 2) for e in cs["revs"]))
+        # the property: transient would-block / timeout conditions while reading are tolerated on sockets AND pipes
+        tolerant = True if rk == "sock" else PIPE_TOLERANT()          # what the model is told about this tree (generated fact)
+        fault_r = any(e[0] in (3, 4) for e in cs["revs"])             # what the oracle counts as a fault: hard errors and end of stream only
         sent_ok = pkts[:nsent_ok]
         # -------- receiver-side oracle (the property's statement)
         if cs.get("corrupt") is None:
